@@ -426,6 +426,37 @@ class Hist(Scenario):
             self.g("checkout", "-q", "-f", base_branch)
         return outcome
 
+    def op_rebase_delete_recreate(self):
+        """A rebased series that creates an AI file, deletes it and re-creates it, while upstream changed another AI-touched file
+        of the series (so notes cannot simply be copied)."""
+        rng = self.rng
+        base_branch = self.current_branch() or "main"
+        feat = self.new_branch_name("dr")
+        who = rng.choice(self.sessions)
+        self.g("checkout", "-q", "-b", feat)
+        f = rng.choice([x for x in self.files if x in self.tracked()] or self.files)
+        nf = self.do_create(author=who)
+        self.do_edit(author=who, f=f, kinds=["ins"])
+        self.commit_all("dr1 create+edit")
+        self.g("rm", "-q", "--", nf); self.commit_all("dr2 delete")
+        if rng.random() < 0.5:
+            self.do_edit(author=who, f=f, kinds=["ins"]); self.commit_all("dr2b")
+        self.pre_ai(who, nf); self.write(nf, self.new_lines(who, rng.choice([2, 3]), [])); self.post_ai(who, nf)
+        self.commit_all("dr3 recreate")
+        self.g("checkout", "-q", base_branch)
+        self.do_edit(author="human", f=f, kinds=["ins"]); self.commit_all("upstream")
+        self.g("checkout", "-q", feat)
+        p = self.g("rebase", base_branch)
+        self.ops.append("rebase:delete-recreate")
+        outcome = "done"
+        if self.in_progress():
+            outcome = self.finish_in_progress("rebase", decide="abort")
+        if outcome == "done":
+            self.g("checkout", "-q", base_branch); self.g("merge", "-q", "--ff-only", feat)
+        else:
+            self.g("checkout", "-q", "-f", base_branch)
+        return outcome
+
     def make_seq_editor(self, kind):
         """A GIT_SEQUENCE_EDITOR shell command that rewrites the todo list deterministically."""
         path = os.path.join(self.w.root, "seqed-%d.sh" % self.n)
@@ -484,9 +515,45 @@ class Hist(Scenario):
                 self.resolve_conflicts()
             self.g("commit", "-q", "--allow-empty", "-m", "picked -n")
         elif self.in_progress() or self.unmerged():
-            outcome = self.finish_in_progress("cherry-pick")
+            # finding D20 family: a pick that stops (conflict / empty) and is then skipped or hand-resolved leaves mis-placed notes;
+            # while it is open a stopped cherry-pick is aborted
+            outcome = self.finish_in_progress("cherry-pick", decide=None if pf.get("rebase_upstream_same_file", True) else "abort")
         self.log.append(["cherry-pick-outcome", outcome])
         return outcome
+
+    def op_cherry_conflict_abandoned_commit(self):
+        """A cherry-pick stops on a conflict; the user resolves it and starts `git commit`, which is abandoned (editor fails);
+        `cherry-pick --abort`; then ordinary AI work is committed on the same base. Nothing of the aborted pick may leak."""
+        rng = self.rng
+        base_branch = self.current_branch() or "main"
+        src = self.new_branch_name("cx")
+        tr = [x for x in self.files if x in self.tracked()]
+        if not tr:
+            return
+        f = rng.choice(tr)
+        lines = self.read(f)
+        if not lines:
+            return
+        who = rng.choice(self.sessions)
+        self.g("checkout", "-q", "-b", src)
+        l2 = list(lines); self.pre_ai(who, f); l2[0] = self.fresh(who, hostile=False); self.write(f, l2); self.post_ai(who, f)
+        self.commit_all("cx src")
+        self.g("checkout", "-q", base_branch)
+        l3 = list(lines); l3[0] = self.fresh("human", hostile=False); self.write(f, l3); self.commit_all("cx upstream")
+        p = self.g("cherry-pick", src)
+        self.ops.append("cherry-pick:conflict-abandon")
+        if "CHERRY_PICK_HEAD" in self.in_progress():
+            self.resolve_conflicts(how=rng.choice(["ours", "theirs"]))
+            self.g("commit", env={"GIT_EDITOR": "false"})          # abandoned: the editor fails
+            if "CHERRY_PICK_HEAD" in self.in_progress():
+                self.g("cherry-pick", "--abort")
+            else:
+                return
+        # ordinary work afterwards, by another session in other files
+        others = [x for x in tr if x != f] or tr
+        for _ in range(rng.choice([1, 2])):
+            self.do_edit(author=rng.choice(self.sessions), f=rng.choice(others), kinds=["ins"])
+        self.commit_all("after abandoned pick")
 
     def op_squash_merge(self):
         rng = self.rng
